@@ -51,3 +51,12 @@ d = json.load(open(cpath))
 d['decisions'] = dec
 json.dump(d, open(cpath, 'w'), indent=0, sort_keys=True)
 print(len(dec), 'functions with tests,', sum(len(v) for v in dec.values()), 'tests')
+
+# expression fingerprints of every function (stonelint/exprdrift.py)
+from stonelint import exprdrift
+ex = exprdrift.build(pm1)
+ex['note'] = 'per function: attribute names, variable reads, simple statements, calls and integer ' \
+             'literals at /repo HEAD; see stonelint/exprdrift.py'
+json.dump(ex, open(os.path.join(HERE, 'reference', 'expressions.json'), 'w'), indent=0,
+          sort_keys=True)
+print(len(ex['functions']), 'function fingerprints')
